@@ -689,7 +689,7 @@ def emit_type(srcobj, name, log, derive='Clone, Copy, PartialEq, Eq, Structural'
 
 
 def emit_fn(srcobj, name, impl=None, nth=0, contract='', loops=None, never_loop=None, to_string=None,
-            proofs=None, prologue=None, drop_enumerate=None, stub=False, wrap_impl=None, log=None, subst=None, resname='res'):
+            proofs=None, prologue=None, drop_enumerate=None, stub=False, wrap_impl=None, log=None, subst=None, resname='res', attrs=None):
     log = log if log is not None else []
     (s, kw, o, c) = srcobj.find_fn(name, impl, nth)
     orig = srcobj.src[s:c + 1]
@@ -706,6 +706,15 @@ def emit_fn(srcobj, name, impl=None, nth=0, contract='', loops=None, never_loop=
         if to_string:
             body = r1_to_string(body, log, to_string)
         for (a, b) in (subst or []):
+            if a.startswith('~*'):
+                # whitespace-insensitive anchor, every occurrence (at least one)
+                pat = r'\s*'.join(re.escape(t) for t in a[2:].split())
+                n = len(list(re.finditer(pat, body)))
+                if n < 1:
+                    raise LostAnchor('fn %s: replace_all anchor occurs 0 times: %r' % (name, ' '.join(a[2:].split())[:80]))
+                body = re.sub(pat, lambda m: b, body)
+                log.append('subst (all %d occurrences) %r -> %r' % (n, ' '.join(a[2:].split()), b))
+                continue
             if a.startswith('~'):
                 # whitespace-insensitive anchor
                 pat = r'\s*'.join(re.escape(t) for t in a[1:].split())
@@ -738,6 +747,9 @@ def emit_fn(srcobj, name, impl=None, nth=0, contract='', loops=None, never_loop=
             body = '{\n' + prologue.rstrip() + '\n' + body[1:]
             log.append('proof prologue inserted at body start: ' + ' '.join(prologue.split())[:80])
         sig2 = r2_contract(sig, contract, log, resname)
+        if attrs and attrs.strip():
+            prefix = prefix + attrs.strip() + '\n'
+            log.append('verifier attribute(s) added: ' + ' '.join(attrs.split()))
         out = prefix + sig2 + body + '\n'
     if wrap_impl:
         out = wrap_impl + ' {\n' + out + '}\n'
